@@ -9,13 +9,19 @@ package main
 
 import (
 	"context"
+	"encoding/json"
 	stdflag "flag"
 	"fmt"
 	"io"
+	"reflect"
 	"strings"
 
 	"github.com/vimeo/dials"
+	jsondec "github.com/vimeo/dials/decoders/json"
+	"github.com/vimeo/dials/ptrify"
 	dflag "github.com/vimeo/dials/sources/flag"
+	"github.com/vimeo/dials/sourcewrap"
+	"github.com/vimeo/dials/transform"
 )
 
 type c14ADB struct {
@@ -137,5 +143,108 @@ func c14SameFlagSet(c *Ctx, n int) {
 		}
 		res.Count(fmt.Sprintf("same-flagset/rounds=%d/hand=%v/both=%v", rounds, hand, bothField != ""))
 		res.Case(fmt.Sprintf("again|%d|%v|%s", rounds, args, handName), true, cs)
+	}
+}
+
+// ---------- one alias-wrapped decoder value, two config types ----------
+//
+// `sourcewrap.NewTransformingDecoder(dec, transform.NewAliasMangler("dials"))` is a value an application may keep
+// and use for every config file it reads.  What it does for one config type must not depend on which types it has
+// decoded before: the four patterns hold for each type, in any order of use.  Oracle only.
+
+type c14SServer struct {
+	Name string `dials:"name"`
+	Addr string `dials:"addr" dialsalias:"address"`
+	Port int    `dials:"port" dialsalias:"listen_port"`
+}
+
+type c14SClient struct {
+	Name     string `dials:"name"`
+	Endpoint string `dials:"endpoint" dialsalias:"target"`
+	Retries  int    `dials:"retries" dialsalias:"attempts"`
+}
+
+func c14SharedDecoder(c *Ctx, n int) {
+	r := c.RNG
+	res := c.Res
+	type leaf struct {
+		primary, alias string
+		isInt          bool
+	}
+	kinds := map[string][]leaf{
+		"server": {{"addr", "address", false}, {"port", "listen_port", true}},
+		"client": {{"endpoint", "target", false}, {"retries", "attempts", true}},
+	}
+	for i := 0; i < n; i++ {
+		dec := sourcewrap.NewTransformingDecoder(&jsondec.Decoder{}, transform.NewAliasMangler("dials"))
+		uses := 2 + r.Intn(4)
+		var trace []string
+		for u := 0; u < uses; u++ {
+			kind := []string{"server", "client"}[r.Intn(2)]
+			var T reflect.Type
+			if kind == "server" {
+				T = reflect.TypeOf(c14SServer{})
+			} else {
+				T = reflect.TypeOf(c14SClient{})
+			}
+			pt := ptrify.Pointerify(T, reflect.New(T).Elem())
+			doc := map[string]any{"name": "x"}
+			want := map[string]string{}
+			both := ""
+			for _, l := range kinds[kind] {
+				var val any = fmt.Sprintf("v%d", r.Intn(1000))
+				if l.isInt {
+					val = 1 + r.Intn(60000)
+				}
+				switch pat := r.Intn(4); {
+				case pat == 1:
+					doc[l.primary] = val
+					want[l.primary] = fmt.Sprint(val)
+				case pat == 2:
+					doc[l.alias] = val
+					want[l.primary] = fmt.Sprint(val)
+				case pat == 3 && both == "":
+					doc[l.primary], doc[l.alias] = val, val
+					both = l.primary
+				}
+			}
+			text, _ := json.Marshal(doc)
+			trace = append(trace, kind+" "+string(text))
+			cs := map[string]any{"stream": "one alias-wrapped decoder value used for two config types", "uses_so_far": append([]string{}, trace...)}
+			var v reflect.Value
+			var err error
+			pn := catch(func() { v, err = dec.Decode(strings.NewReader(string(text)), dials.NewType(pt)) })
+			switch {
+			case pn != "":
+				res.Add(Finding{Kind: "violation", What: "the decoder panicked: " + pn, Case: cs})
+			case both != "":
+				if err == nil {
+					res.Add(Finding{Kind: "violation", What: fmt.Sprintf("use %d (%s): %q supplied under its primary and its alias name: no error", u+1, kind, both), Case: cs})
+				}
+			case err != nil:
+				res.Add(Finding{Kind: "violation", What: fmt.Sprintf("use %d (%s): unexpected error: %v", u+1, kind, err), Case: cs})
+			default:
+				for v.Kind() == reflect.Ptr {
+					v = v.Elem()
+				}
+				for _, l := range kinds[kind] {
+					got := ""
+					for k := 0; k < v.NumField(); k++ {
+						if v.Type().Field(k).Tag.Get("dials") == l.primary {
+							f := v.Field(k)
+							if f.Kind() == reflect.Ptr && !f.IsNil() {
+								got = fmt.Sprint(f.Elem().Interface())
+							}
+						}
+					}
+					if got != want[l.primary] {
+						res.Add(Finding{Kind: "violation", What: fmt.Sprintf("use %d (%s): field %s supplied under its primary or alias name: got %q, want %q", u+1, kind, l.primary, got, want[l.primary]), Case: cs})
+						break
+					}
+				}
+			}
+		}
+		res.Count(fmt.Sprintf("shared-decoder/uses=%d", uses))
+		res.Case(fmt.Sprint("shared|", trace), uses >= 3, map[string]any{"uses": trace})
 	}
 }
